@@ -3,13 +3,13 @@ package main
 import (
 	"fmt"
 	"go/ast"
+	"go/token"
+	"go/types"
 	"os"
 	"os/exec"
 	"path/filepath"
-	"strconv"
-	"go/token"
-	"go/types"
 	"sort"
+	"strconv"
 	"strings"
 
 	"golang.org/x/tools/go/ssa"
